@@ -1,14 +1,40 @@
 #!/usr/bin/env python3
-"""Collect confirmed seeded changes from /tmp/mut_*/m* into /verif/seeded/<PROP>-m<i>/ and write README.md.
-meta.json: which property it breaks, what it needs to manifest, what was run (confirmation + checks)."""
+"""Collect confirmed seeded changes from /tmp/mut_*/m* (round A) and /tmp/mutB_*/m* (round B) into
+/verif/seeded/<PROP>-<a|b><i>/ and write seeded/README.md.  meta.json: which property it breaks, what it needs to
+manifest, what was run (confirmation + every check run against it, in order)."""
 import glob, json, os, re, shutil
+
+# history of check runs: /tmp/mut_results.log (written by test_mut.sh), rounds separated by '----' lines
+hist = {}
+rnd = "round 1 (first version of the checks)"
+if os.path.exists('/tmp/mut_results.log'):
+    for line in open('/tmp/mut_results.log'):
+        if line.startswith('----'):
+            rnd = line.strip('- \n'); continue
+        m = re.match(r'(mutB?)_(C\d+)_(m\d)_(C\d+) rc=(\d+) violations=(\d+) (\d+)s :: (.*)', line)
+        if m:
+            key = (m.group(1), m.group(2), m.group(3))
+            hist.setdefault(key, []).append({'check': m.group(4), 'exit': int(m.group(5)), 'violations': int(m.group(6)), 'wall_s': int(m.group(7)),
+                                             'failed_harnesses': m.group(8).split(), 'when': rnd})
+NOTES = {
+ 'C06-a1': 'alloc build of skip(), stack mode: the smallest witness (83 9f ff a1 01 02 03) needs N = 7 one-byte items in the ALLOC build; the alloc structure harnesses reach N = 3 (thorough tier only; N = 2 already takes 13 min). Outside the stated bound of C06.',
+ 'C02-b1': 'same region as C06-a1 (alloc build of skip() in stack mode, plus an 8-byte container length): outside the stated bound; the repository\'s own std-gated quickcheck does not reach it either.',
+ 'C02-b2': 'HashMap decode (std): HashMap/HashSet are outside the claim (SipHash + RandomState are not encodable); a 4-byte declared length pre-allocating is not observable without a counting allocator.',
+ 'C20-a1': 'no-alloc skip() on a map whose 8-byte length is >= 2^63: requires a symbolic multi-byte container length and termination by running out of input, which exhausts CBMC\'s memory (DESIGN.md 2.2); stated as outside the bound of C06/C20.',
+ 'C20-a2': 'the error CLASS of minicbor-serde\'s DecodeError is not observable through its public API except via Display text; core::fmt is out of reach (C19) and differing messages are a permitted difference in C20\'s statement. Not a violation the checks can or should see.',
+ 'C10-b1': 'caught by the C06 check (c06_head_3b in the alloc build: skip() fails on a well-formed negative integer below i64::MIN); C10\'s own check replaces Decoder::skip by its R3 model, so a bug inside skip is invisible to it by construction.',
+}
+
 rows = []
-for d in sorted(glob.glob('/tmp/mut_C*/m*') + glob.glob('/tmp/mutB_C*/m*')):
+for d in sorted(glob.glob('/tmp/mut_C*/m?') + glob.glob('/tmp/mutB_C*/m?')):
+    if not os.path.isdir(d) or not os.path.exists(os.path.join(d, 'meta.json')):
+        continue
     meta = json.load(open(os.path.join(d, 'meta.json')))
     prop = meta['property']
-    name = '%s-%s' % (prop, os.path.basename(d) if '/mut_' in d else os.path.basename(d).replace('m', 'b'))
+    rb = 'mutB' if '/mutB_' in d else 'mut'
+    name = '%s-%s%s' % (prop, 'b' if rb == 'mutB' else 'a', os.path.basename(d)[1:])
     conf = open(os.path.join(d, 'confirm.txt')).read() if os.path.exists(os.path.join(d, 'confirm.txt')) else ''
-    if 'CONFIRMED' not in conf or 'NOT-CONFIRMED' in conf:
+    if 'CONFIRMED' not in conf or 'NOT-CONFIRMED' in conf.splitlines()[-1]:
         print('skip (not confirmed):', d); continue
     out = os.path.join('/verif/seeded', name)
     os.makedirs(out, exist_ok=True)
@@ -16,30 +42,37 @@ for d in sorted(glob.glob('/tmp/mut_C*/m*') + glob.glob('/tmp/mutB_C*/m*')):
     for f in os.listdir(d):
         if f.startswith('demo') and os.path.isfile(os.path.join(d, f)):
             shutil.copy(os.path.join(d, f), os.path.join(out, f))
-    checks = {}
-    for lg in glob.glob(os.path.join(d, 'check_*.log')):
-        p = re.search(r'check_(\w+)\.log', lg).group(1)
-        t = open(lg, errors='replace').read()
-        viol = re.findall(r'^VIOLATION property=(\S+) replay=\S*/([^/\s]+)$', t, re.M)
-        failed = re.findall(r'^\s+FAILED\s+(\S+)', t, re.M)
-        summ = re.findall(r'^== \w+: .*$', t, re.M)
-        checks[p] = {'cmd': './check %s --tier quick (against a worktree with the patch applied)' % p,
-                     'detected': bool(viol), 'violations': len(viol), 'failed_harnesses': failed[:8], 'summary': summ[-1] if summ else ''}
+    runs = hist.get((rb, os.path.basename(os.path.dirname(d)).split('_')[1], os.path.basename(d)), [])
     m2 = {'property': prop, 'summary': meta.get('summary'), 'needs': meta.get('needs'), 'files_changed': meta.get('files_changed'),
           'demo_cmd': re.sub(r'/tmp/mutB?_C\d+/m\d+', '/verif/seeded/' + name, meta.get('demo_cmd', '')),
-          'origin': 'independent sub-agent given only the property text and a scratch worktree',
+          'origin': 'independent sub-agent given only the property text and a scratch worktree (round %s)' % ('B' if rb == 'mutB' else 'A'),
           'confirmed': {'how': 'confirm_mut.sh: scratch worktree of /repo HEAD; patch applies; cargo test --workspace --offline passes (69 incl. doctests); demo fails with the patch and passes without it',
                         'result': conf.strip().splitlines()[-2:] if conf else []},
-          'rebased': os.path.exists(os.path.join(d, 'patch.orig.diff')),
-          'checks_run': checks}
+          'rebased_onto_fix_commits': os.path.exists(os.path.join(d, 'patch.orig.diff')),
+          'checks_run': [dict(r, cmd='VERIF_REPO=<worktree with the patch> ./check %s --tier quick' % r['check']) for r in runs]}
     json.dump(m2, open(os.path.join(out, 'meta.json'), 'w'), indent=1)
-    rows.append((name, prop, meta.get('summary', '')[:110].replace('|', '/'), checks))
+    rows.append((name, prop, (meta.get('summary') or '')[:120].replace('|', '/').replace('\n', ' '), runs))
+
+def verdict(r):
+    return 'VIOLATION' if r['exit'] == 1 and r['violations'] > 0 else ('inconclusive' if r['exit'] == 2 else 'missed')
+
 with open('/verif/seeded/README.md', 'w') as f:
-    f.write('# Seeded changes and which checks catch them\n\nEach directory holds `patch.diff` (applies to /repo HEAD with `git -C /repo apply`), the demonstration and `meta.json`.\n'
-            'All were produced by sub-agents that saw only the property text, and confirmed with `confirm_mut.sh` (suite still passes, demo fails only with the patch).\n\n'
-            '| seeded change | breaks | what it does | check(s) run | caught by (harnesses) |\n|---|---|---|---|---|\n')
-    for name, prop, summ, checks in rows:
-        ran = ', '.join('%s:%s' % (p, 'VIOLATION' if c['detected'] else 'missed') for p, c in sorted(checks.items())) or 'not run yet'
-        by = '; '.join(', '.join(c['failed_harnesses'][:3]) for p, c in sorted(checks.items()) if c['detected'])
+    f.write('# Seeded changes and which checks catch them\n\n'
+            'Each directory holds `patch.diff` (applies to /repo HEAD with `git -C /repo apply`), the demonstration and `meta.json`.\n'
+            'All were produced by sub-agents that saw only the property text (two rounds, 38 each), and confirmed with `confirm_mut.sh`\n'
+            '(existing suite still passes, demo fails only with the patch).  Every check run against a change is listed in order:\n'
+            'a change that was missed at first and caught after the checks were strengthened shows both runs.\n'
+            '`inconclusive` = the check exited 2 (timeout / memory under load, or a counterexample whose native replay could not be produced).\n\n')
+    total = len(rows)
+    caught = sum(1 for r in rows if any(verdict(x) == 'VIOLATION' for x in r[3]))
+    f.write('**%d seeded changes, %d caught by at least one registered check (quick tier).**\n\n' % (total, caught))
+    f.write('| seeded change | breaks | what it does | check runs (in order) | caught by |\n|---|---|---|---|---|\n')
+    for name, prop, summ, runs in rows:
+        ran = '; '.join('%s: %s' % (r['check'], verdict(r)) for r in runs) or 'not run'
+        by = ', '.join(sorted({h for r in runs if verdict(r) == 'VIOLATION' for h in r['failed_harnesses'][:3]}))
         f.write('| %s | %s | %s | %s | %s |\n' % (name, prop, summ, ran, by))
+    f.write('\n## Changes no registered check catches, and why\n\n')
+    for name, prop, summ, runs in rows:
+        if not any(verdict(x) == 'VIOLATION' for x in runs):
+            f.write('* **%s** — %s\n  *Why not caught:* %s\n' % (name, summ, NOTES.get(name, 'see DESIGN.md section 8')))
 print('packed', len(rows))
